@@ -21,21 +21,30 @@ IsPrefix(s, t) == Len(s) <= Len(t) /\ \A i \in 1..Len(s) : s[i].iter = t[i].iter
 
 LongRun == IsEv("Long") /\ long' = Ev /\ UNCHANGED nshort
 
+\* the budget does not bind: identical run
+Identical(sh) ==
+  /\ sh.passes = long.passes /\ sh.iterations = long.iterations
+  /\ sh.status = long.status /\ sh.ret = long.ret
+\* the budget binds: a prefix of the long run, cut at the top of pass k
+Cut(sh) ==
+  /\ IsPrefix(sh.passes, long.passes)
+  /\ Len(sh.passes) >= 1
+  /\ sh.passes[Len(sh.passes)].iter = sh.k
+  /\ sh.iterations = sh.k
+  /\ sh.status \in LimitLike
+  \* the returned vectors are the unscaled last iterate (tau-normalised unless a certificate)
+  /\ long.same_dims =>
+       LET last == long.passes[Len(sh.passes)] IN
+       sh.ret = IF sh.status \in {"AlmostPrimalInfeasible", "AlmostDualInfeasible"}
+                THEN last.ret_kappa ELSE last.ret_tau
+\* A long run that ends INSIDE pass N (failed scaling / KKT solve / line search: after that pass's termination test) and a
+\* run limited to N: the limit is noticed first, at the top of pass N (IPM.tla: Check precedes Scale) - unless the long
+\* run's verdict was itself reached at the top of pass N (lack of progress), in which case the runs are identical.
+InPass == {"NumericalError", "InsufficientProgress"}
 ShortOK(sh) ==
-  IF sh.k >= long.iterations /\ long.status \notin {"MaxIterations"}
-  THEN \* the budget does not bind: identical run
-       /\ sh.passes = long.passes /\ sh.iterations = long.iterations
-       /\ sh.status = long.status /\ sh.ret = long.ret
-  ELSE /\ IsPrefix(sh.passes, long.passes)
-       /\ Len(sh.passes) >= 1
-       /\ sh.passes[Len(sh.passes)].iter = sh.k
-       /\ sh.iterations = sh.k
-       /\ sh.status \in LimitLike
-       \* the returned vectors are the unscaled last iterate (tau-normalised unless a certificate)
-       /\ long.same_dims =>
-            LET last == long.passes[Len(sh.passes)] IN
-            sh.ret = IF sh.status \in {"AlmostPrimalInfeasible", "AlmostDualInfeasible"}
-                     THEN last.ret_kappa ELSE last.ret_tau
+  IF sh.k = long.iterations /\ long.status \in InPass THEN Identical(sh) \/ Cut(sh)
+  ELSE IF sh.k >= long.iterations /\ long.status \notin {"MaxIterations"} THEN Identical(sh)
+  ELSE Cut(sh)
 
 \* the same solver object solved a second time: bit-for-bit the same trajectory and result
 ResolveRun == IsEv("Resolve") /\ Ev.run = long.run
